@@ -161,13 +161,13 @@ example :
 /-! ### No lost wake-up (monitor `Model.ProducerWake`) -/
 
 open Model.ProducerWake in
-/-- Every release of a record's accounting that can make a parked waiter's predicate true — a producer is
-blocked and space freed, or nothing is buffered or blocked any more while a Flush is in progress — is followed
-by a Broadcast of the producer's condition variable, in every history accepted up to its quiescent point. -/
+/-- Every release of a record's accounting while a producer is blocked (space freed for a parked producer; the
+blocked count is exact, it only changes under the producer mutex) is followed by a Broadcast of the producer's
+condition variable, in every history accepted up to its quiescent point. -/
 theorem wake_release_is_broadcast (h₁ h₂ : List Model.ProducerWake.Ev) (s : Model.ProducerWake.St)
     (id : Nat) (n bl fl : Nat)
     (hacc : Model.ProducerWake.run {} (h₁ ++ Model.ProducerWake.Ev.released id n bl fl :: h₂ ++ [Model.ProducerWake.Ev.quiesce]) = some s)
-    (hneed : wakeNeeded n bl fl true = true) :
+    (hneed : bl > 0) :
     ∃ site, Model.ProducerWake.Ev.bcast site ∈ h₂ := by
   refine Classical.byContradiction fun hno => ?_
   have hnb : ∀ site, Model.ProducerWake.Ev.bcast site ∉ h₂ := fun site hm => hno ⟨site, hm⟩
@@ -180,17 +180,57 @@ theorem wake_release_is_broadcast (h₁ h₂ : List Model.ProducerWake.Ev) (s : 
     simp only [h1, Option.bind_some] at hacc
     rw [Proof.ProducerWake.run_append] at hacc
     have ht1 : s₁.need ≥ Proof.ProducerWake.tent s₁ := Proof.ProducerWake.need_ge_tent {} s₁ h₁ (by simp [Proof.ProducerWake.tent]) h1
-    simp only [Model.ProducerWake.run, Model.ProducerWake.step, Model.ProducerWake.check, Model.ProducerWake.apply, hneed, if_true,
-      Option.bind_some] at hacc
+    simp only [Model.ProducerWake.run, Model.ProducerWake.step, Model.ProducerWake.check, Option.bind_some] at hacc
     rw [Proof.ProducerWake.run_append] at hacc
-    cases h2 : Model.ProducerWake.run { s₁ with need := s₁.need + 1 } h₂ with
+    cases h2 : Model.ProducerWake.run (Model.ProducerWake.apply s₁ (Model.ProducerWake.Ev.released id n bl fl)) h₂ with
     | none => simp [h2] at hacc
     | some s₂ =>
-      have hge : s₂.need ≥ Proof.ProducerWake.tent s₂ + 1 :=
-        Proof.ProducerWake.need_stays { s₁ with need := s₁.need + 1 } s₂ h₂ (by simp [Proof.ProducerWake.tent] at ht1 ⊢; omega) hnb h2
+      have h0 : (Model.ProducerWake.apply s₁ (Model.ProducerWake.Ev.released id n bl fl)).need
+          ≥ Proof.ProducerWake.tent (Model.ProducerWake.apply s₁ (Model.ProducerWake.Ev.released id n bl fl)) + 1 := by
+        simp only [Model.ProducerWake.apply, hneed, if_true]
+        split <;> simp [Proof.ProducerWake.tent] at ht1 ⊢ <;> omega
+      have hge : s₂.need ≥ Proof.ProducerWake.tent s₂ + 1 := Proof.ProducerWake.need_stays _ s₂ h₂ h0 hnb h2
       simp only [h2, Option.bind_some, Model.ProducerWake.run, Model.ProducerWake.step, Model.ProducerWake.check] at hacc
       have : s₂.need > 0 := by omega
       simp [this] at hacc
+
+open Model.ProducerWake in
+/-- A release that leaves nothing buffered or blocked while a Flush is reported in progress is followed by a
+Broadcast or by the return of a flusher (a flusher that had not parked yet re-checks its predicate under the
+mutex and returns without needing a wake-up), in every history accepted up to its quiescent point. -/
+theorem wake_release_wakes_flusher (h₁ h₂ : List Model.ProducerWake.Ev) (s : Model.ProducerWake.St)
+    (id : Nat) (n bl fl : Nat)
+    (hacc : Model.ProducerWake.run {} (h₁ ++ Model.ProducerWake.Ev.released id n bl fl :: h₂ ++ [Model.ProducerWake.Ev.quiesce]) = some s)
+    (hzero : n + bl = 0) (hfl : fl > 0) :
+    (∃ site, Model.ProducerWake.Ev.bcast site ∈ h₂) ∨ Model.ProducerWake.Ev.flushReturned ∈ h₂ := by
+  refine Classical.byContradiction fun hno => ?_
+  have hnb : ∀ site, Model.ProducerWake.Ev.bcast site ∉ h₂ := fun site hm => hno (Or.inl ⟨site, hm⟩)
+  have hnf : Model.ProducerWake.Ev.flushReturned ∉ h₂ := fun hm => hno (Or.inr hm)
+  have hsplit : h₁ ++ Model.ProducerWake.Ev.released id n bl fl :: h₂ ++ [Model.ProducerWake.Ev.quiesce]
+      = h₁ ++ ([Model.ProducerWake.Ev.released id n bl fl] ++ (h₂ ++ [Model.ProducerWake.Ev.quiesce])) := by simp
+  rw [hsplit, Proof.ProducerWake.run_append] at hacc
+  cases h1 : Model.ProducerWake.run {} h₁ with
+  | none => simp [h1] at hacc
+  | some s₁ =>
+    simp only [h1, Option.bind_some] at hacc
+    rw [Proof.ProducerWake.run_append] at hacc
+    simp only [Model.ProducerWake.run, Model.ProducerWake.step, Model.ProducerWake.check, Option.bind_some] at hacc
+    rw [Proof.ProducerWake.run_append] at hacc
+    cases h2 : Model.ProducerWake.run (Model.ProducerWake.apply s₁ (Model.ProducerWake.Ev.released id n bl fl)) h₂ with
+    | none => simp [h2] at hacc
+    | some s₂ =>
+      have hbl : bl = 0 := by omega
+      have h0 : (Model.ProducerWake.apply s₁ (Model.ProducerWake.Ev.released id n bl fl)).flushNeed = true := by
+        have hn : n = 0 := by omega
+        subst hbl; subst hn
+        simp [Model.ProducerWake.apply, hfl]
+      have hf : s₂.flushNeed = true := Proof.ProducerWake.flushNeed_stays _ s₂ h₂ h0 hnb hnf h2
+      have hc : Model.ProducerWake.check s₂ Model.ProducerWake.Ev.quiesce ≠ none := by
+        simp only [Model.ProducerWake.check, hf, if_true]
+        split <;> simp
+      cases hcq : Model.ProducerWake.check s₂ Model.ProducerWake.Ev.quiesce with
+      | none => exact hc hcq
+      | some r => simp [Model.ProducerWake.run, Model.ProducerWake.step, h2, hcq] at hacc
 
 open Model.ProducerWake in
 /-- A produce call that stopped blocking without being admitted (cancelled) at a moment when that made a
@@ -245,8 +285,9 @@ theorem wake_cancelled_produce_broadcasts (h₁ h₂ h₃ : List Model.ProducerW
             | admitted i =>
               have hne : ¬ id = i := fun h => ha (by simp [h])
               simp [Model.ProducerWake.apply, ht, hne]
-            | released i n b f => simp only [Model.ProducerWake.apply]; split <;> simp [ht]
+            | released i n b f => simp only [Model.ProducerWake.apply]; split <;> split <;> simp [ht]
             | bcast site => exact absurd (List.mem_cons_self) (hb site)
+            | flushReturned => simp [Model.ProducerWake.apply, ht]
             | returned i =>
               simp only [Model.ProducerWake.check, ht] at hc
               have hne : i ≠ id := by
@@ -254,7 +295,7 @@ theorem wake_cancelled_produce_broadcasts (h₁ h₂ h₃ : List Model.ProducerW
               have : (some id == some i) = false := by simp; exact fun h => hne h.symm
               simp [Model.ProducerWake.apply, ht, this]
             | quiesce => simp [Model.ProducerWake.apply, ht]
-    cases h2 : Model.ProducerWake.run { need := s₁.need + 1, tentative := some id } h₂ with
+    cases h2 : Model.ProducerWake.run { s₁ with need := s₁.need + 1, tentative := some id } h₂ with
     | none => simp [h2] at hacc
     | some s₂ =>
       have ht2 := keep h₂ _ s₂ rfl hnb hna hquiet h2
@@ -268,3 +309,9 @@ example : Model.ProducerWake.accepts [.unblocked 2 0 0 1, .returned 2, .quiesce]
 example : Model.ProducerWake.accepts [.released 1 0 0 1, .quiesce] = false := by decide
 
 end Props.C03
+
+/-- Non-vacuity of `wake_release_wakes_flusher`: a flusher that returns without a Broadcast covers the obligation, and
+a history in which neither happens is refused at its quiescent point. -/
+example : Model.ProducerWake.accepts [.released 1 0 0 1, .flushReturned, .quiesce] = true := by decide
+example : Model.ProducerWake.accepts [.released 1 0 0 1, .quiesce] = false := by decide
+example : Model.ProducerWake.accepts [.released 1 3 1 0, .quiesce] = false := by decide
